@@ -9,7 +9,7 @@ PID = "C20"
 def run(tier, seed):
     q = tier == "quick"
     try:
-        return common.run_enum(PID, tier, seed, "MC_Import", "import", ["Import_mc.cfg", "Import_q_gen.cfg"] if q else ["Import_mc.cfg", "Import_q_gen.cfg", "Import_t_gen.cfg"],
+        return common.run_enum(PID, tier, seed, "MC_Import", "import", ["Import_mc.cfg", "Import_q_gen.cfg"] if q else ["Import_mc.cfg", "Import_q_gen.cfg", "Import_t_gen.cfg", "Import_t2_gen.cfg"],
             [("Import_w_memo.cfg", "memo_after_recursion"), ("Import_w_unpruned.cfg", "unpruned:colorspace")],
             actions=["Choose", "Step"],
             rule="every source graph TLC enumerates (2 objects quick / 3 thorough with every edge set incl. self-loops and cycles, every set of objects referenced from the "
